@@ -2,8 +2,17 @@
 import re
 
 
+GAPS = []
+
+
 class SqlUnsupported(Exception):
-    """Syntax/semantics outside the implemented subset: harness gap (exit 2), never a verdict."""
+    """Syntax/semantics outside the implemented subset: harness gap (exit 2), never a verdict.
+    Service code may swallow exceptions, so every occurrence is also recorded in GAPS; the harness
+    checks that list after each operation."""
+
+    def __init__(self, *a):
+        super().__init__(*a)
+        GAPS.append(str(a[0]) if a else 'unsupported')
 
 
 class SqlSyntaxError(Exception):
